@@ -132,6 +132,15 @@ def check_el(pc, c):
     w = 3.0 + np.arange(len(h)) % 3 + 0.5 * np.arange(len(h))
     bad = laws_el(h, p, c["L"], pc.equivalent_layers(h.copy(), p.copy(), c["L"]))
     bad += laws_el(h, p, c["L"], pc.equivalent_layers(h.copy(), p.copy(), c["L"], w=w.copy()), w=w)
+    if not bad:
+        # tabulated profiles often come as integers (metres, whole m/s, counts): the same laws must hold
+        hi, wi, pi_ = np.array(c["h"], dtype=np.int64), np.rint(2 * w).astype(np.int64), np.array(c["p"], dtype=np.int64)
+        for nm, (hh, pp, ww) in (("integer-heights", (hi, p, w)), ("integer-wind", (h, p, wi)), ("integer-strengths", (h, pi_, w))):
+            b2 = laws_el(np.asarray(hh, float), np.asarray(pp, float), c["L"], pc.equivalent_layers(hh.copy(), pp.copy(), c["L"], w=ww.copy()),
+                         w=np.asarray(ww, float))
+            if b2:
+                bad.append((b2[0][0] + ":" + nm, b2[0][1]))
+                break
     drift = []
     if not bad and not c["onedge"]:
         got = np.asarray(pc.equivalent_layers(h.copy(), p.copy(), c["L"])[1], float)
@@ -155,18 +164,31 @@ def check_scan(pc, c, nlayers=(5, 64)):
 
 
 def check_gctm(pc, rng):
+    """exactly L, non-negative; and (auxiliary, optimiser accuracy) the first 2L-1 moments within 5e-2 - the unchanged code reaches
+    1e-6 .. 3e-3 on these profiles"""
     bad = []
     n = 0
-    for N, L in ((10, 2), (12, 3), (20, 4), (9, 1)):
-        h = np.linspace(0.0, 15000.0, N)
+    worst = 0.0
+    for N, L, h0 in ((10, 2, 0.0), (12, 3, 0.0), (20, 4, 0.0), (9, 1, 0.0), (12, 2, 500.0), (16, 3, 2000.0)):
+        h = np.linspace(h0, h0 + 15000.0, N)
         p = (1.0 + rng.integers(0, 5, size=N)) * 1e-15
         out = pc.GCTM(h.copy(), p.copy(), L)
         hh, cc = np.asarray(out[0], float), np.asarray(out[1], float)
         n += 1
         if hh.shape != (L,) or cc.shape != (L,):
             bad.append(("GCTM:exactly-L", dict(L=L)))
-        elif np.any(cc < 0) or np.any(hh < 0):
+            continue
+        if np.any(cc < 0) or np.any(hh < 0) or not np.all(np.isfinite(hh)) or not np.all(np.isfinite(cc)):
             bad.append(("GCTM:non-negative", dict(h=hh.tolist(), cn2=cc.tolist())))
+            continue
+        for k in range(2 * L - 1):
+            m_in, m_out = (p * (h / 1e4) ** k).sum(), (cc * (hh / 1e4) ** k).sum()
+            rel = abs(m_out - m_in) / m_in
+            worst = max(worst, rel)
+            if rel > 5e-2:
+                bad.append(("GCTM:moment-%d-not-reproduced" % k, dict(N=N, L=L, lowest_layer=h0, rel=float(rel))))
+                break
+    check_gctm.worst = worst
     return bad, n
 
 
@@ -190,7 +212,24 @@ def run(run):
     with warnings.catch_warnings():
         warnings.simplefilter("ignore")
         with np.errstate(all="ignore"):
-            for c in r.printed:
+            cases = r.printed
+            n_og = sum(1 for c in cases if c["kind"] == "og")
+            cap = 60000 if quick else 200000
+            if n_og > cap:
+                # the model has every case; the binding replays a seeded sample of the optimal-grouping ones (all others in full)
+                keep = set(rng.choice(n_og, size=cap, replace=False).tolist())
+                idx = -1
+                sampled = []
+                for c in cases:
+                    if c["kind"] == "og":
+                        idx += 1
+                        if idx not in keep:
+                            continue
+                    sampled.append(c)
+                run.notes.append("optimal-grouping terminal states: %d in the model, %d replayed" % (n_og, cap))
+                run.exhaustive = False
+                cases = sampled
+            for c in cases:
                 k = c["kind"]
                 if k == "og":
                     bad, drift = check_og(pc, c)
@@ -237,10 +276,11 @@ def run(run):
             bad, ng = check_gctm(pc, rng)
             for key, detail in bad:
                 run.violation(key, detail, dict(kind="gctm"))
-    run.aux.update(cases_by_kind=kinds, real_global_seed_runs=real, gctm_cases=ng)
+    run.aux.update(cases_by_kind=kinds, real_global_seed_runs=real, gctm_cases=ng, gctm_worst_moment_error=getattr(check_gctm, 'worst', None))
     run.traces += real
     run.assumptions += [
-        "GCTM: only 'exactly L' and non-negativity are decided; reproducing 2L-1 moments is optimiser accuracy (not decided)",
+        "GCTM: 'exactly L' and non-negativity are checked; reproducing 2L-1 moments is optimiser accuracy - asserted only as an "
+        "auxiliary float check (5e-2 relative) on six profiles, two of them starting above 0 m",
         "equivalent_layers heights of zero-strength (empty) slabs are not judged; moments are summed over layers with strength > 0",
         "a layer exactly on an interior slab edge may fall on either side in floating point (conservation is unaffected)",
     ]
